@@ -22,7 +22,7 @@ RESULT_ADTS = ("SatisfactionResult", "SatisfactionResultUnderAssumptions", "Opti
 
 def timeout_bit(call, st):
     if call.name == "declare_timeout" and (call.self_ty or "").endswith("CSPSolverState"):
-        return (st[0], st[1], 1)
+        return (st[0], st[1], st[2] | 1)
     return st
 
 
@@ -33,7 +33,7 @@ def m1_lib(led, rid, ctx):
     seen = set()
     fired = 0
     for label, b, st2, rt in trans:
-        if st2[2] != 1:
+        if not (st2[2] & 1):
             continue
         fired += 1
         if rt is None or rt[0] != "enum":
@@ -168,7 +168,7 @@ def m3(led, rid, ctx):
     n = 0
     seen = set()
     for label, b, st2, rt in trans:
-        if st2[2] != 1:
+        if not (st2[2] & 1):
             continue
         is_guard = rt is not None and rt[0] == "enum" and rt[2] == "UnsatisfiableUnderAssumptions"
         if is_guard:
